@@ -1224,7 +1224,9 @@ void push_function_context () {
 
   if (last_function_context == MAX_FUNCTION_DEPTH - 1)
     {
-      yyerror ("Function pointers nested too deep");
+      /* fatal for this compilation: the closing ':)' of a literal that was never opened would pop the context of
+       * an outer one and leave the parser with no function context at all */
+      lexerror ("Function pointers nested too deep");
       return;
     }
   fc = &function_context_stack[++last_function_context];
